@@ -2,6 +2,7 @@
 from __future__ import annotations
 
 import contextlib
+import functools
 import itertools
 import os
 import posixpath
@@ -9,6 +10,8 @@ import shutil
 import subprocess
 import sys
 import tempfile
+import threading
+import time
 import zlib
 from concurrent.futures import ThreadPoolExecutor
 from pathlib import Path
@@ -19,8 +22,10 @@ from translate import c18_guard, c18_ops
 MANIFEST = dict(
     technique='Rocq proof (POSIX join/normpath/abspath on character lists; soundness of every segment-wise guard form by '
               'induction on a guard language; data-flow model of every OS call of RawFileSystem/FileSystemChain incl. File '
-              'handles; os.walk as a Section variable) + two fail-closed ast translators (guard, operations) + exhaustive '
-              'vm_compute correspondence + operations-model correspondence against audit-hook observations + audit-hook oracle',
+              'handles; os.walk as a Section variable; memo tables and whole histories over several objects by induction) + '
+              'two fail-closed ast translators (guard by path conditions, operations by abstract interpretation with helper '
+              'inlining; wrapper and shared-state censuses) + exhaustive vm_compute correspondence + operations-model and '
+              'history-model correspondences against audit-hook observations + audit-hook oracle incl. histories',
     text='Theorems in Props/C18.v: for every guard expression accepted by the recogniser raise_sound (abs == root, '
          'startswith(root + sep) in four spellings, commonpath == root, closed under and/or/not), every working directory '
          '(also a different one at call time), root argument and path string, a path that RawFileSystem._resolve_path does '
@@ -41,8 +46,22 @@ MANIFEST = dict(
          'corner is exactly the parent (observation). normpath, _resolve_path and unify_path are compared with the model '
          'exhaustively over two segment alphabets (plain; backslash-carrying and non-ASCII look-alikes) by checksums '
          'computed inside the kernel VM; the operations model is compared with the accesses observed by an audit hook. '
-         'Real temporary trees (with literal backslash file names inside the root) are searched with every '
-         'open/stat/scandir observed, through strings, File handles and chains.',
+         'Histories (round 3): for any list of steps (a step = one access site of the generated table run by one of any '
+         'number of RawFileSystem objects, constrained or not, on arbitrary strings) with a memo table under any '
+         'entry-dropping replacement policy in front of _resolve_path whose key covers every step (it contains the '
+         'constrain flag, or all objects are constrained), the history equals the step-by-step model and every path a '
+         'constrained object hands to the OS is inside its root; a key without the flag (functools.lru_cache on the '
+         'method: FileSystem.__eq__/__hash__ ignore constrain_path) is refuted by the history "unconstrained object '
+         'resolves ../secret.txt, constrained object on the same folder is asked". That today\'s source has no such table '
+         'is an instance obligation over three censuses regenerated on every run: no decorator / rebinding / attribute '
+         'hook / subclass override on _resolve_path, on any method of File, FileSystem, RawFileSystem, FileSystemChain, '
+         'and no module-level or class-level mutable object, mutable parameter default or method-object state used by '
+         'those methods. The guard translator reads _resolve_path by path conditions (early returns, else branches, '
+         'renamed or aliased locals give the same guard); the constructor is read symbolically (locals, base '
+         'constructor). The history model is compared with the accesses observed step by step on two objects sharing a '
+         'folder. Real temporary trees (with literal backslash file names inside the root) are searched with every '
+         'open/stat/scandir observed, through strings, File handles, chains and after an unconstrained object on the '
+         'same folder has performed the same operations.',
     note='Trusted: Coq kernel + vm_compute, translate/c18_guard.py and translate/c18_ops.py, the hand model SM/PathNorm.v of '
          'CPython posixpath (tied by the exhaustive correspondence, POSIX only; Windows path semantics not covered) and the '
          'evaluation of path expressions SM/PathOps.v (tied by the operations correspondence), Adler-32 as the block '
@@ -53,10 +72,13 @@ MANIFEST = dict(
          'theorems hold for any stored string because every consumer re-validates. Escaping the *subfolder prefix* of a '
          'FileSystemChain member while staying inside the RawFileSystem root is counted, not reported (the property speaks '
          'about the root directory). unify_path("..") == ".." is an observation, carved out of the theorem. '
-         'constrain_path=False and assignments to fs.path / fs.constrain_path from outside the class are exempt.',
+         'constrain_path=False and assignments to fs.path / fs.constrain_path from outside the class are exempt. '
+         'The censuses are syntactic over filesys.py: state smuggled in through an object passed to the constructor, '
+         'through another module, or a table kept per object (harmless while the flag of an object is fixed) is not seen; '
+         'the history search on the implementation is the backstop.',
 )
 
-IMPORTS = ['SV.SM.PathNorm', 'SV.SM.PathNormEnum', 'SV.SM.PathOps', 'SV.SM.PathWalkRel', 'SV.Gen.Containment_gen', 'SV.Gen.FsOps_gen', 'SV.Props.C18', 'Coq.NArith.NArith',
+IMPORTS = ['SV.SM.PathNorm', 'SV.SM.PathNormEnum', 'SV.SM.PathOps', 'SV.SM.PathWalkRel', 'SV.SM.PathMemo', 'SV.SM.PathHistory', 'SV.Gen.Containment_gen', 'SV.Gen.FsOps_gen', 'SV.Props.C18', 'Coq.NArith.NArith',
            'Coq.Lists.List']
 PRE = 'Import ListNotations.\n'
 CWD = '/w/cwd'
@@ -71,6 +93,7 @@ ROOTS = ['/t/root', '/t/root/', '/', 't/root', '//t/root', '/t/root/x/..']
 KINDS = [0, 1, 2, 3]
 PINNED_DIGESTS = {'0c705014a388', '6306d55cde22'}      # ast digests of _resolve_path (pinned tree, repaired tree)
 ESCALATE: list = []
+RESOLVE_METHOD = ['_resolve_path']      # the method that raises RootEscapeError, as found by the translator
 DISAGREE: dict = {}                    # stage -> names of functions on which model and implementation disagree
 
 
@@ -105,7 +128,7 @@ def paths_of(prefix: str, kind: int, n: int, alpha: str = 'alpha') -> list[str]:
 def impl_resolve(fs, p: str) -> str:
     from srctools.filesys import RootEscapeError
     try:
-        return fs._resolve_path(p)
+        return getattr(fs, RESOLVE_METHOD[0])(p)
     except RootEscapeError:
         return '!'
 
@@ -199,8 +222,9 @@ def _int(v: str) -> int:
     return int(v, 16) if v.startswith('0x') else int(v)
 
 
-def corr_exhaustive(ck: Ck) -> None:
-    """Model vs implementation over the whole segment domain: per block one Adler-32 computed by vm_compute."""
+def corr_exhaustive_start(ck: Ck):
+    """Model vs implementation over the whole segment domain: per block one Adler-32 computed by vm_compute.
+    Runs the implementation side, starts the coqc processes and returns; corr_exhaustive_finish compares."""
     fns = functions()
     full = ck.thorough or bool(ck.tie_broken) or bool(ESCALATE)
     # a job = one coqc process: (prefix, separator kind, [(alphabet, segment count, indexes of the functions compared)])
@@ -253,8 +277,16 @@ def corr_exhaustive(ck: Ck) -> None:
             prepared.append((job, exprs, exp, meta))
     import time
     ck.extra['corr_exhaustive_impl_side_s'] = round(time.time() - t_impl, 1)
-    with ThreadPoolExecutor(max_workers=8) as ex:
-        outs = list(ex.map(lambda pr: coq_run(ck, f'p{PREFIXES.index(pr[0][0])}k{pr[0][1]}', pr[1]), prepared))
+    # the coqc processes start now and run while the caller goes on (run() searches the real trees meanwhile)
+    ex = ThreadPoolExecutor(max_workers=8)
+    futs = [ex.submit(coq_run, ck, f'p{PREFIXES.index(pr[0][0])}k{pr[0][1]}', pr[1]) for pr in prepared]
+    ex.shutdown(wait=False)
+    return prepared, futs
+
+
+def corr_exhaustive_finish(ck: Ck, started) -> None:
+    prepared, futs = started
+    outs = [f.result() for f in futs]
     bad_blocks = []
     failed_eval = 0
     nblocks = 0
@@ -401,6 +433,8 @@ TREE = {
     't/root/x/a', 't/root/sub_evil/x.txt',
     't/root_evil/secret.txt', 't/root_evil/a', 't/root_evil/sub/deep.txt', 't/root_evil/root/x',
     't/rootx', 't/root.bak/in.txt', 't/other/in.txt', 't/roo/in.txt',
+    # siblings that differ from the root only in case (a case-folding comparison would take them for the root)
+    't/Root/in.txt', 't/ROOT/sub/in.txt',
     'elsewhere/data.txt',
     # files INSIDE the root whose literal names contain backslashes (ordinary characters on POSIX): the name validates as
     # inside, the File handle built from it stores the name with '\\' turned into '/', i.e. a path that leaves the root
@@ -418,17 +452,22 @@ ROOT_CONFIGS = [
     ('nested', '{BASE}/t/root/sub'),           # sibling t/root/sub_evil extends its name
 ]
 CHAIN_PREFIXES = [None, '', 'sub', 'sub/']
-OPS = ['contains', 'getitem', 'open_bin', 'open_str', 'walk', 'handle_loose', 'handle_made']
+ESCAPE_KEYS = ('escape-', 'handle-escape-', 'history-escape-')
+# after_loose comes before handle_loose: both let an unconstrained system resolve the name, the history op wants to be first
+OPS = ['contains', 'getitem', 'open_bin', 'open_str', 'walk', 'after_loose', 'handle_loose', 'handle_made']
+SUB_OPS = ['contains', 'getitem', 'open_bin', 'open_str', 'walk']
 SEGS = ['..', '..', '.', '', 'in.txt', 'a', 'sub', 'deep.txt', 'root', 'root_evil', 'secret.txt', 't', 'rootx', 'root.bak',
-        'sub_evil', 'x.txt', 'x', 'above.txt', 'top.txt', 'other', 'roo', 'nested.txt', 'elsewhere', 'data.txt']
+        'sub_evil', 'x.txt', 'x', 'above.txt', 'top.txt', 'other', 'roo', 'nested.txt', 'elsewhere', 'data.txt',
+        'Root', 'ROOT', ' ..', '.. ', '%2e%2e', '\uff0e\uff0e']
 
 _events: list | None = None
+_obs_thread = 0
 _hook_installed = False
 
 
 def _audit(event: str, args) -> None:
     ev = _events
-    if ev is None:
+    if ev is None or threading.get_ident() != _obs_thread:      # worker threads (coqc runs of the correspondence) are not observed
         return
     if event in ('open', 'os.scandir', 'os.listdir', 'os.walk') and args and isinstance(args[0], (str, bytes, os.PathLike)):
         ev.append((event, os.fsdecode(args[0])))
@@ -437,7 +476,8 @@ def _audit(event: str, args) -> None:
 @contextlib.contextmanager
 def observe():
     """Record every path handed to open / scandir / listdir / walk (audit events) and to os.stat / os.lstat."""
-    global _events, _hook_installed
+    global _events, _hook_installed, _obs_thread
+    _obs_thread = me = threading.get_ident()
     if not _hook_installed:
         sys.addaudithook(_audit)
         _hook_installed = True
@@ -445,12 +485,12 @@ def observe():
     ev: list = []
 
     def stat(path, *a, **k):
-        if isinstance(path, (str, bytes, os.PathLike)):
+        if isinstance(path, (str, bytes, os.PathLike)) and threading.get_ident() == me:
             ev.append(('os.stat', os.fsdecode(path)))
         return real_stat(path, *a, **k)
 
     def lstat(path, *a, **k):
-        if isinstance(path, (str, bytes, os.PathLike)):
+        if isinstance(path, (str, bytes, os.PathLike)) and threading.get_ident() == me:
             ev.append(('os.lstat', os.fsdecode(path)))
         return real_lstat(path, *a, **k)
 
@@ -464,25 +504,35 @@ def observe():
 
 
 def build_tree(base: Path) -> None:
+    _real.cache_clear()
     for rel in sorted(TREE):
         p = base / rel
         p.parent.mkdir(parents=True, exist_ok=True)
         p.write_text(f'CONTENT-OF:{rel}\n')
 
 
-def make_fs(base: str, root_spec: str, chain_prefix):
+def make_fs(base: str, root_spec: str, chain_prefix, constrain: bool = True):
     from srctools.filesys import FileSystemChain, RawFileSystem
     spec = root_spec.replace('{BASE}', base)
-    raw = RawFileSystem(Path(spec[5:]) if spec.startswith('Path:') else spec)
+    raw = RawFileSystem(Path(spec[5:]) if spec.startswith('Path:') else spec, constrain_path=constrain)
     if chain_prefix is None:
         return raw, raw
     return FileSystemChain((raw, chain_prefix)), raw
 
 
+@functools.lru_cache(maxsize=1 << 16)       # the tree does not change while it is searched
+def _real(p: str) -> str:
+    """os.path.realpath; a broken filesystem may have wandered into /proc, where entries vanish while being resolved."""
+    try:
+        return os.path.realpath(p)
+    except OSError:
+        return os.path.normpath(os.path.abspath(p))
+
+
 def is_inside(root: str, p: str) -> bool:
     """Independent containment test used by the oracle: whole-component comparison of normalised real paths."""
-    r = os.path.realpath(root).split('/')
-    q = os.path.realpath(p).split('/')
+    r = _real(root).split('/')
+    q = _real(p).split('/')
     r = [c for c in r if c]
     q = [c for c in q if c]
     return q[:len(r)] == r
@@ -494,7 +544,50 @@ def _handle_for(fs, raw, chain_prefix, h):
     return h if chain_prefix is None else File(fs, h.path, h)
 
 
-def run_op(base: str, root_spec: str, chain_prefix, op: str, path_t: str) -> dict:
+def _sub_op(fs, sub: str, path: str, data: list, walk_limit: int, answers: list | None = None) -> str:
+    """One plain operation, used by the history op after_loose on both filesystems."""
+    if sub == 'contains':
+        r = path in fs
+        if r and answers is not None:
+            answers.append('contains')
+        return str(r)
+    if sub == 'getitem':
+        f = fs[path]
+        if answers is not None:
+            answers.append('getitem')
+        with f.open_bin() as fh:
+            data.append(fh.read().decode())
+        f.cache_key()
+        return 'file'
+    if sub == 'open_bin':
+        with fs.open_bin(path) as fh:
+            data.append(fh.read().decode())
+        return 'data'
+    if sub == 'open_str':
+        with fs.open_str(path) as fh2:
+            data.append(fh2.read())
+        return 'data'
+    n = 0
+    for f in fs.walk_folder(path):      # lazily: an unconstrained walk of '../../..' must not list the whole disk
+        n += 1
+        if n > walk_limit:
+            break
+        try:                            # a yielded handle may itself be refused (literal backslash names); keep walking
+            with f.open_bin() as fh:
+                data.append(fh.read().decode())
+        except ValueError:
+            pass
+    return f'{n} files'
+
+
+@functools.lru_cache(maxsize=1)
+def _ignored_prefixes() -> tuple:
+    """Files the interpreter itself opens (lazy imports) are not accesses of the filesystem under test."""
+    from harness.common import REPO, VERIF
+    return tuple(x.rstrip('/') + '/' for x in {sys.prefix, sys.base_prefix, os.path.dirname(os.__file__), str(REPO), str(VERIF)})
+
+
+def run_op(base: str, root_spec: str, chain_prefix, op: str, path_t: str, cold: bool = True) -> dict:
     """Run one operation on a fresh filesystem object; returns outcome, data and the observed accesses.
 
     handle_loose: a File produced by an UNconstrained RawFileSystem on the same folder (its lookup is not observed, it
@@ -505,11 +598,13 @@ def run_op(base: str, root_spec: str, chain_prefix, op: str, path_t: str) -> dic
     old = os.getcwd()
     os.chdir(base)
     data: list[str] = []
+    answers: list[str] = []     # positive answers of the constrained filesystem about this name: `in` said True, [] returned a File
     try:
         fs, raw = make_fs(base, root_spec, chain_prefix)
         root = raw.path
         handle = None
         prep = None
+        cold_escape = False
         if op == 'handle_loose' and chain_prefix is not None:
             prep = 'no-handle:chain'          # a chain would open the wrapped handle through the unconstrained system
         elif op == 'handle_loose':
@@ -519,14 +614,39 @@ def run_op(base: str, root_spec: str, chain_prefix, op: str, path_t: str) -> dic
                 prep = 'no-handle:' + type(e).__name__
         elif op == 'handle_made':
             handle = _handle_for(fs, raw, chain_prefix, File(raw, path, path))
+        elif op == 'after_loose':
+            # history: an UNconstrained filesystem on the same folder (same chain prefix) performs every plain operation
+            # with this name first (not observed: it is exempt); then a NEW constrained one is asked the same.
+            # Before that (cold=True; the targeted part of the search has run the plain operations on the same name already
+            # and passes what they found instead) the constrained one is asked "cold": an escape that needs no history is
+            # not a history matter.
+            if cold:
+                with observe() as ev0:
+                    cold_data: list[str] = []
+                    for sub in SUB_OPS:
+                        try:
+                            _sub_op(fs, sub, path, cold_data, 60)
+                        except (OSError, ValueError, UnicodeError):
+                            pass
+                seen0 = [os.path.normpath(os.path.join(base, p)) for _, p in ev0] + \
+                    [os.path.join(base, d.strip()[len('CONTENT-OF:'):]) for d in cold_data if d.startswith('CONTENT-OF:')]
+                cold_escape = any(not is_inside(root, p) and not p.startswith(_ignored_prefixes()) for p in seen0)
+                fs, raw = make_fs(base, root_spec, chain_prefix)
+            loose, _ = make_fs(base, root_spec, chain_prefix, constrain=False)
+            for sub in SUB_OPS:
+                try:
+                    _sub_op(loose, sub, path, [], 3)
+                except (OSError, ValueError, UnicodeError):
+                    pass
         with observe() as ev:
             try:
                 if prep is not None:
                     out = prep
                 elif op == 'contains':
-                    out = 'ok:' + str(path in fs)
+                    out = 'ok:' + _sub_op(fs, 'contains', path, data, 0, answers)
                 elif op == 'getitem':
                     f = fs[path]
+                    answers.append('getitem')
                     with f.open_bin() as fh:
                         data.append(fh.read().decode())
                     with f.open_str() as fh2:
@@ -545,6 +665,8 @@ def run_op(base: str, root_spec: str, chain_prefix, op: str, path_t: str) -> dic
                     n = rejected = 0
                     for f in fs.walk_folder(path):
                         n += 1
+                        if n > 400:       # the tree has a few dozen files: a walk this long has left it (and may never end)
+                            break
                         if n <= 60:
                             try:      # a yielded handle may itself be refused (literal backslash names); keep walking
                                 with f.open_bin() as fh:
@@ -552,6 +674,16 @@ def run_op(base: str, root_spec: str, chain_prefix, op: str, path_t: str) -> dic
                             except RootEscapeError:
                                 rejected += 1
                     out = f'ok:{n} files'
+                elif op == 'after_loose':
+                    done = []
+                    for sub in SUB_OPS:
+                        try:
+                            done.append(sub + '=' + _sub_op(fs, sub, path, data, 60, answers))
+                        except RootEscapeError:
+                            pass
+                        except (OSError, ValueError, UnicodeError) as e:
+                            done.append(sub + ':' + type(e).__name__)
+                    out = 'ok:after-unconstrained ' + ','.join(done) if done else 'RootEscapeError'
                 elif op in ('handle_loose', 'handle_made'):
                     done = []
                     # a handle of the unconstrained system opens through ITS system when asked itself: only the calls
@@ -591,23 +723,29 @@ def run_op(base: str, root_spec: str, chain_prefix, op: str, path_t: str) -> dic
         events = [(k, os.path.normpath(os.path.join(base, p))) for k, p in ev]
     finally:
         os.chdir(old)
-    from harness.common import REPO, VERIF
-    ignore = tuple(x.rstrip('/') + '/' for x in {sys.prefix, sys.base_prefix, os.path.dirname(os.__file__),
-                                                 str(REPO), str(VERIF)})
+    ignore = _ignored_prefixes()
     escapes = [(k, p) for k, p in events if not is_inside(root, p) and not p.startswith(ignore)]
     leaked = [d.strip() for d in data if d.startswith('CONTENT-OF:')
               and not is_inside(root, os.path.join(base, d.strip()[len('CONTENT-OF:'):]))]
+    # an existence test / lookup that answers (instead of raising) about a name that lexically leads out of the root has
+    # told the caller something about the outside, even when a cache made the OS call unnecessary
+    # (where the name leads: a chain joins its prefix first and then turns the slashes, so '\\in.txt' under prefix 'sub' is
+    # 'sub//in.txt'; a RawFileSystem turns the slashes of the name and joins it to the root)
+    rel = path.replace('\\', '/') if chain_prefix is None else os.path.join(chain_prefix, path).replace('\\', '/')
+    target = os.path.normpath(os.path.join(root, rel))
+    answered_outside = [[a, target] for a in answers if not is_inside(root, target)]
     pre_escapes = 0
     if chain_prefix:
         sub = os.path.join(root, chain_prefix)
         pre_escapes = sum(1 for k, p in events if is_inside(root, p) and not is_inside(sub, p))
     return {'outcome': out, 'root': root, 'events': events, 'escapes': escapes, 'leaked': leaked, 'data': data[:3],
-            'prefix_escapes': pre_escapes, 'handle_path': None if handle is None else handle.path}
+            'answered_outside': answered_outside,
+            'prefix_escapes': pre_escapes, 'handle_path': None if handle is None else handle.path, 'cold_escape': cold_escape}
 
 
 def classify(root: str, p: str) -> str:
-    rp = os.path.realpath(root)
-    q = os.path.realpath(p)
+    rp = _real(root)
+    q = _real(p)
     if q.startswith(rp):
         return 'sibling-name-extends-root'
     if is_inside(q if os.path.isdir(q) else os.path.dirname(q), rp):
@@ -638,8 +776,16 @@ def search_trees(ck: Ck) -> None:
     found: dict[str, dict] = {}
     stats = {'prefix_escapes': 0}
 
-    def case(label, root_spec, cp, op, path_t, segs=None):
-        r = run_op(base, root_spec, cp, op, path_t)
+    op_seconds: dict[str, float] = {}
+
+    plain_escaped: set = set()       # (root configuration, chain prefix, path) on which a plain operation escaped
+
+    def case(label, root_spec, cp, op, path_t, cold=True):
+        t0 = time.perf_counter()
+        r = run_op(base, root_spec, cp, op, path_t, cold=cold)
+        if op == 'after_loose' and not cold:
+            r['cold_escape'] = (label, cp, path_t) in plain_escaped
+        op_seconds[op] = op_seconds.get(op, 0.0) + time.perf_counter() - t0
         ck.count('tree_operations')
         ck.hist('tree_op', op)
         ck.hist('tree_root_config', label)
@@ -649,34 +795,49 @@ def search_trees(ck: Ck) -> None:
         path = path_t.replace('{BASE}', base)
         if ('..' in path or path.startswith('/') or '\\' in path) and r['events'] or r['outcome'] == 'RootEscapeError':
             ck.seen((label, cp, op, path_t))
-        if not r['escapes'] and not r['leaked']:
+        if not r['escapes'] and not r['leaked'] and not r['answered_outside']:
             return False
-        where = r['escapes'][0][1] if r['escapes'] else os.path.join(base, r['leaked'][0][len('CONTENT-OF:'):])
-        key = ('handle-' if op.startswith('handle_') else '') + 'escape-' + classify(r['root'], where)
+        if op in SUB_OPS:
+            plain_escaped.add((label, cp, path_t))
+        where = r['escapes'][0][1] if r['escapes'] else r['answered_outside'][0][1] if not r['leaked'] \
+            else os.path.join(base, r['leaked'][0][len('CONTENT-OF:'):])
+        key = ('handle-' if op.startswith('handle_') else 'history-' if op == 'after_loose' and not r['cold_escape'] else '') + 'escape-' \
+            + classify(r['root'], where)
         rep = {'root': root_spec, 'root_config': label, 'chain_prefix': cp, 'op': op, 'path': path_t,
                'file_handle_path': r['handle_path'],
                'outcome': r['outcome'], 'accessed_outside_root': [[k, p.replace(base, '{BASE}')] for k, p in r['escapes'][:4]],
-               'data_returned': r['leaked'][:2], 'how': 'checks.c18.replay: builds the tree TREE under a fresh {BASE} and runs the op'}
+               'data_returned': r['leaked'][:2],
+               'answered_about_outside': [[a, p.replace(base, '{BASE}')] for a, p in r['answered_outside'][:2]], 'how': 'checks.c18.replay: builds the tree TREE under a fresh {BASE} and runs the op'}
         rank = (0 if r['leaked'] else 1, len(path_t))
         n_prev = found[key]['_n'] if key in found else 0
         if key not in found or rank < found[key]['_rank']:
             found[key] = dict(rep, _rank=rank)
         found[key]['_n'] = n_prev + 1
-        return True
+        return key
 
     # 1. corpus + targeted spellings of every tree entry, every root configuration
     for label, root_spec in ROOT_CONFIGS:
         root_abs_t = '{BASE}/t/root/sub' if label == 'nested' else '{BASE}/t/root'
-        tp = ['../root_evil/secret.txt', '..\\root_evil\\secret.txt', '../root_evil', '../rootx', '../root.bak/in.txt',
-              '{BASE}/t/root_evil/secret.txt', '../sub_evil/x.txt', '..\\above.txt', '..\\in.txt', '../above.txt',
-              '../in.txt', 'sub\\..\\..\\above.txt'] + targeted_paths(base, root_abs_t)
+        corpus = ['../root_evil/secret.txt', '..\\root_evil\\secret.txt', '../root_evil', '../rootx', '../root.bak/in.txt',
+                  '{BASE}/t/root_evil/secret.txt', '../sub_evil/x.txt', '..\\above.txt', '..\\in.txt', '../above.txt',
+                  '../in.txt', 'sub\\..\\..\\above.txt',
+                  # names that are inside the root as they stand and lead out of it after a transformation somebody might
+                  # apply between the check and the use (strip, Unicode NFKC, URL unquoting, case folding, ~ / $VAR expansion)
+                  ' ../above.txt', '../above.txt ', '\uff0e\uff0e/above.txt', '%2e%2e/above.txt', '..%2fabove.txt',
+                  '../Root/in.txt', '../ROOT/sub/in.txt', '{BASE}/T/ROOT/../above.txt', '~/../above.txt', '$PWD/../above.txt',
+                  '..\u2215above.txt', 'sub/\u2025/above.txt']
+        tp = corpus + targeted_paths(base, root_abs_t)
         for cp in CHAIN_PREFIXES:
             if cp is not None and label not in ('abs', 'relative', 'nested'):
                 continue
-            for path_t in tp:
-                ops = OPS if cp is None or label == 'abs' else ['getitem', 'walk', 'handle_made']
+            for k, path_t in enumerate(tp):
+                ops = OPS if cp is None or label == 'abs' else ['getitem', 'walk', 'handle_made', 'after_loose']
                 for op in ops:
-                    case(label, root_spec, cp, op, path_t)
+                    # the history op costs ten operations: in the quick tier on the corpus and every second spelling; the
+                    # plain operations on the same name come first in `ops` and say whether an escape needs the history
+                    if op == 'after_loose' and not (ck.thorough or ck.tie_broken or k < len(corpus) or k % 2 == 0):
+                        continue
+                    case(label, root_spec, cp, op, path_t, cold=False)
     # 2. random segment paths
     rng = ck.rng
     for _ in range(n_random):
@@ -689,18 +850,21 @@ def search_trees(ck: Ck) -> None:
         path_t = pre + join_kind(kind, segs)
         op = rng.choice(OPS)
         ck.hist('tree_random_segments', k)
-        if case(label, root_spec, cp, op, path_t) :
-            # shrink: drop segments while the same class of escape remains
+        hit = case(label, root_spec, cp, op, path_t)
+        if hit and found[hit]['_n'] <= 4:
+            # shrink (the first hits of every class only: on a broken tree thousands of random paths escape):
+            # drop segments while the same class of escape remains
             cur = segs
             changed = True
             while changed and len(cur) > 1:
                 changed = False
                 for i in range(len(cur)):
                     cand = cur[:i] + cur[i + 1:]
-                    if case(label, root_spec, cp, op, pre + join_kind(kind, cand)):
+                    if case(label, root_spec, cp, op, pre + join_kind(kind, cand)) == hit:
                         cur, changed = cand, True
                         break
     ck.extra['chain_prefix_escapes_inside_root(observation)'] = stats['prefix_escapes']
+    ck.extra['tree_op_seconds'] = {k: round(v, 1) for k, v in op_seconds.items()}
     ck.sample({'root': '{BASE}/t/root', 'op': 'open_bin', 'path': 'sub/../in.txt',
                'result': {k: v for k, v in run_op(base, '{BASE}/t/root', None, 'open_bin', 'sub/../in.txt').items()
                           if k in ('outcome', 'data')}})
@@ -713,7 +877,8 @@ def search_trees(ck: Ck) -> None:
         rep.pop('_rank', None)
         what = (f'{rep["op"]}({rep["path"]!r}) on RawFileSystem({rep["root"]!r})'
                 + (f' through FileSystemChain prefix {rep["chain_prefix"]!r}' if rep['chain_prefix'] is not None else '')
-                + f' -> {rep["outcome"]}; touched {rep["accessed_outside_root"][:1]} outside the root ({n} such cases)')
+                + f' -> {rep["outcome"]}; touched {rep["accessed_outside_root"][:1]} outside the root'
+                + (f', answered {rep["answered_about_outside"][:1]}' if rep['answered_about_outside'] else '') + f' ({n} such cases)')
         ck.violation(key, what, rep)
     ck.extra['tree_violation_keys'] = sorted(found)
     shutil.rmtree(base_dir, ignore_errors=True)
@@ -726,6 +891,18 @@ OPS_CASES = [  # (label, method of RawFileSystem, branch)
     ('handle_open_str', 'open_str', 'File'), ('handle_cache_key', '_get_cache_key', 'File'),
 ]
 KCODE = {'open': 1, 'os.walk': 2, 'os.stat': 3, 'os.lstat': 3}
+
+
+def _parse_option_list(v: str) -> list:
+    """`[Some [47; 116]; None; Some []]` (a Coq `list (option (list N))`) -> [str | None]."""
+    import re
+    out = []
+    for m in re.finditer(r'None|Some\s*\[([^\]]*)\]', v):
+        if m.group(0) == 'None':
+            out.append(None)
+        else:
+            out.append(''.join(chr(int(x.split('%')[0])) for x in m.group(1).split(';') if x.strip()))
+    return out
 
 
 def corr_ops(ck: Ck) -> None:
@@ -753,36 +930,62 @@ def corr_ops(ck: Ck) -> None:
     observed = []
     old = os.getcwd()
     os.chdir(base)
+
+    def perform(fs, label, arg, hpath, data):
+        """One operation on one object; the (callee code, path) set the audit hook saw."""
+        h = File(fs, hpath, data)
+        with observe() as ev:
+            try:
+                if label == 'contains':
+                    arg in fs
+                elif label == 'lookup':
+                    fs[arg]
+                elif label == 'open_bin':
+                    fs.open_bin(arg).close()
+                elif label == 'open_str':
+                    fs.open_str(arg).close()
+                elif label == 'walk':
+                    for _f in fs.walk_folder(arg):
+                        break
+                elif label == 'handle_open_bin':
+                    fs.open_bin(h).close()
+                elif label == 'handle_open_str':
+                    fs.open_str(h).close()
+                else:
+                    fs._get_cache_key(h)
+            except (RootEscapeError, OSError, ValueError, UnicodeError):
+                pass
+        return sorted({(KCODE[k], p) for k, p in ev if k in KCODE})
+
+    # histories: two or three objects on the same folder (constrained and not), two to four steps; the names repeat between
+    # the steps of a history, so whatever an earlier step (of another object) left behind would be visible in a later one
+    hist_pool = ['../above.txt', '..\\above.txt', '../root_evil/secret.txt', 'in.txt', 'sub/../in.txt', '../rootx', '..',
+                 base + '/t/above.txt', 'sub\\..\\..\\above.txt', '', '../../top.txt', 'sub/deep.txt']
+    histories = []
+    for k in range(ck.budget(60, 400)):
+        name = hist_pool[k % len(hist_pool)]
+        steps = []
+        for j in range(rng.choice([2, 2, 3, 4])):
+            label, m, b = rng.choice(OPS_CASES)
+            con = (j % 2 == 1) if j < 2 else rng.random() < 0.5         # first an unconstrained object, then a constrained one
+            pick = lambda: name if rng.random() < 0.7 else rng.choice(hist_pool)
+            steps.append((con, label, m, b, pick(), pick(), pick()))
+        histories.append(steps)
+    hist_observed = []
     try:
         for label, m, b, arg, hpath, data in cases:
-            fs = RawFileSystem(root)
-            h = File(fs, hpath, data)
-            with observe() as ev:
-                try:
-                    if label == 'contains':
-                        arg in fs
-                    elif label == 'lookup':
-                        fs[arg]
-                    elif label == 'open_bin':
-                        fs.open_bin(arg).close()
-                    elif label == 'open_str':
-                        fs.open_str(arg).close()
-                    elif label == 'walk':
-                        for _f in fs.walk_folder(arg):
-                            break
-                    elif label == 'handle_open_bin':
-                        fs.open_bin(h).close()
-                    elif label == 'handle_open_str':
-                        fs.open_str(h).close()
-                    else:
-                        fs._get_cache_key(h)
-                except (RootEscapeError, OSError, ValueError, UnicodeError):
-                    pass
-            observed.append(sorted({(KCODE[k], p) for k, p in ev if k in KCODE}))
+            observed.append(perform(RawFileSystem(root), label, arg, hpath, data))
             ck.count('ops_model_cases')
             ck.hist('ops_model_case', f'{label}:{"access" if observed[-1] else "no-access"}')
             if observed[-1] and ('..' in arg + hpath + data or '\\' in arg + hpath + data):
                 ck.seen(('ops', label, arg, hpath, data))
+        for steps in histories:
+            objs = {True: RawFileSystem(root), False: RawFileSystem(root, constrain_path=False)}
+            hist_observed.append([perform(objs[con], label, arg, hpath, data) for con, label, m, b, arg, hpath, data in steps])
+            ck.count('history_model_steps', len(steps))
+            ck.hist('history_model_shape', ''.join('C' if st[0] else 'u' for st in steps))
+            if any(o and st[0] for o, st in zip(hist_observed[-1], steps)) and len({st[4] for st in steps}) < len(steps):
+                ck.seen(('hist', tuple((st[0], st[1], st[4]) for st in steps)))
     finally:
         os.chdir(old)
         shutil.rmtree(base_dir, ignore_errors=True)
@@ -793,9 +996,25 @@ def corr_ops(ck: Ck) -> None:
            'Definition predict (m b : string) (arg hpath data : str) : list (N * str) :=\n'
            '  map (fun x => (kcode (fst x), snd x)) (site_accesses raise_if o_cwd o_root '
            '{| i_arg := arg; i_data := data; i_hpath := hpath; i_prefix := []; i_walked := [] |} m b raw_sites).\n')
+    pre += ('Definition hstep (con : bool) (m b : string) (arg hpath data : str) : list opcall :=\n'
+            '  map (fun s => {| oc_root := o_root; oc_con := con; oc_site := s; oc_in := {| i_arg := arg; i_data := data; '
+            'i_hpath := hpath; i_prefix := []; i_walked := [] |} |})\n'
+            '      (filter (fun s => (String.eqb (st_method s) m && String.eqb (st_branch s) b)%bool) raw_sites).\n'
+            '(* today\'s source has no table in front of _resolve_path: the policy that keeps nothing *)\n'
+            'Definition hrun (ops : list opcall) : list (option str) := hist_run true raise_if o_cwd (fun _ => []) [] ops.\n')
     bad = []
     missing = set()
     chunks = [list(range(lo, min(lo + 150, len(cases)))) for lo in range(0, len(cases), 150)]
+    # sites per (method, branch), in table order, from the translator's side information (to split the flat answer)
+    table = {}
+    for m_, c_, b_, p_, _ln in ck.extra.get('translated', {}).get('FsOps_gen', {}).get('raw_sites', []):
+        table.setdefault((m_, b_), []).append(c_)
+
+    def hist_batch(lo):
+        exprs = ['hrun (' + ' ++ '.join(f'hstep {"true" if con else "false"} "{m}" "{b}" {coq_str(arg)} {coq_str(hp)} {coq_str(da)}'
+                                        for con, _l, m, b, arg, hp, da in steps) + ')' for steps in histories[lo:lo + 40]]
+        return coq_run(ck, f'hist{lo}', exprs, preamble=pre)
+    hist_los = list(range(0, len(histories), 40))
 
     def batch(idx):
         exprs = ['[' + '; '.join(f'predict "{cases[k][1]}" "{cases[k][2]}" {coq_str(cases[k][3])} {coq_str(cases[k][4])} '
@@ -803,7 +1022,9 @@ def corr_ops(ck: Ck) -> None:
                  '[' + '; '.join(f'has_method "{m}" "{b}" raw_sites' for _, m, b in OPS_CASES) + ']']
         return coq_run(ck, f'ops{idx[0]}', exprs, preamble=pre)
     with ThreadPoolExecutor(max_workers=6) as ex:
+        hist_futs = [ex.submit(hist_batch, lo) for lo in hist_los]
         outs = list(ex.map(batch, chunks))
+        hist_outs = [f.result() for f in hist_futs]
     for idx, vals in zip(chunks, outs):
         if vals is None:
             ck.obligation('correspondence:operations_model', False, 'model could not be evaluated')
@@ -812,8 +1033,9 @@ def corr_ops(ck: Ck) -> None:
         present = dict(zip([(m, b) for _, m, b in OPS_CASES], parse_coq_nested(vals[1])))
         for k, pred in zip(idx, parse_coq_nested(vals[0])):
             if not present[(cases[k][1], cases[k][2])]:
-                missing.add(cases[k][1])          # method renamed / restructured: nothing to compare against
-                continue
+                # the interpreter found no OS call in this method (the access moved somewhere it cannot follow): the model
+                # predicts no access at all, an observed one is a disagreement
+                missing.add(cases[k][1])
             model = sorted({(int(c), ''.join(chr(x) for x in a)) for c, a in pred})
             if model != observed[k]:
                 bad.append({'op': cases[k][0], 'method': cases[k][1], 'branch': cases[k][2], 'arg': cases[k][3],
@@ -821,7 +1043,7 @@ def corr_ops(ck: Ck) -> None:
                             'observed': [[c, p.replace(base, '{BASE}')] for c, p in observed[k]],
                             'model': [[c, p.replace(base, '{BASE}')] for c, p in model]})
     if missing:
-        ck.notes.append(f'operations correspondence: no site table for methods {sorted(missing)} (renamed?); those cases were skipped')
+        ck.notes.append(f'operations correspondence: the interpreter found no OS call in {sorted(missing)}; the model predicts no access there')
     ck.extra['ops_model_methods_without_sites'] = sorted(missing)
     ck.obligation('correspondence:operations_model', not bad,
                   f'{len(cases)} (operation, argument, handle path, handle data) cases: the (callee, path) list of the model '
@@ -831,6 +1053,41 @@ def corr_ops(ck: Ck) -> None:
         ck.tie_broken.append('correspondence operations model (SM/PathOps.v + Gen/FsOps_gen.v vs observed OS accesses)')
         ck.extra['ops_model_disagreements'] = bad[:5]
         DISAGREE.setdefault('ops', set()).update(b['method'] for b in bad)
+    # histories: hist_run (SM/PathHistory.v, no table) against the accesses of every step
+    hbad = []
+    heval_failed = False
+    for lo, vals in zip(hist_los, hist_outs):
+        if vals is None:
+            heval_failed = True
+            continue
+        for steps, obs, v in zip(histories[lo:lo + 40], hist_observed[lo:lo + 40], vals):
+            flat = _parse_option_list(v)
+            pos = 0
+            model_steps = []
+            for con, _l, m, b, *_ in steps:
+                callees = table.get((m, b), [])
+                part = flat[pos:pos + len(callees)]
+                pos += len(callees)
+                model_steps.append(sorted({(KCODE.get(c, 3), a) for c, a in zip(callees, part) if a is not None}))
+            if pos != len(flat):
+                continue                          # the answer does not match the site table the translator reported
+            if model_steps != obs:
+                k = next(i for i, (x, y) in enumerate(zip(model_steps, obs)) if x != y)
+                hbad.append({'history': [{'constrained': st[0], 'op': st[1], 'arg': st[4].replace(base, '{BASE}'),
+                                          'handle_path': st[5].replace(base, '{BASE}'), 'handle_data': st[6].replace(base, '{BASE}')}
+                                         for st in steps], 'first_differing_step': k,
+                             'observed': [[c, p.replace(base, '{BASE}')] for c, p in obs[k]],
+                             'model': [[c, p.replace(base, '{BASE}')] for c, p in model_steps[k]]})
+    ck.obligation('correspondence:history_model', not hbad and not heval_failed,
+                  f'{len(histories)} histories ({ck.counts.get("history_model_steps", 0)} steps) over a constrained and an '
+                  f'unconstrained RawFileSystem on the same folder: hist_run (SM/PathHistory.v, no table in front of '
+                  f'_resolve_path) vs the accesses observed at every step: {len(hbad)} disagreements'
+                  + ('; model could not be evaluated' if heval_failed else '') + (f'; first: {hbad[0]}' if hbad else '')
+                  + f'; shapes (u = unconstrained, C = constrained step) {ck.distribution.get("history_model_shape")}')
+    if hbad or heval_failed:
+        ck.tie_broken.append('correspondence history model (SM/PathHistory.v vs observed OS accesses over several objects)')
+        ck.extra['history_model_disagreements'] = hbad[:5]
+        DISAGREE.setdefault('history', set()).update(st['op'] for h in hbad for st in h['history'])
     ck.sample({'operations_model_case': dict(zip(('op', 'method', 'branch', 'arg', 'handle_path', 'handle_data'), cases[2])),
                'observed_accesses': [[c, p.replace(base, '{BASE}')] for c, p in observed[2]]})
 
@@ -895,15 +1152,21 @@ def run(ck: Ck) -> None:
                '_resolve_path under 6 roots; a block (function, prefix, separators, alphabet, length >= 2) is one distinct '
                'non-trivial case; plus raw random strings, non-trivial = contains ".." and longer than 2; plus the '
                'operations model: (method, branch, argument, handle path, handle data) cases compared with the '
-               'audit-hook observation, non-trivial = reached the OS and carries ".." or a backslash. Oracle: operations on real trees, distinct by (root configuration, chain '
+               'audit-hook observation, non-trivial = reached the OS and carries ".." or a backslash; plus histories of 2-4 '
+               'such steps over a constrained and an unconstrained object on one folder with repeating names, non-trivial = '
+               'a constrained step reached the OS and a name repeats. Oracle: operations on real trees, distinct by (root configuration, chain '
                'prefix, operation, path), non-trivial = the path contains "..", a backslash or is absolute and the '
-               'operation reached the file system, or it was rejected with RootEscapeError')
+               'operation reached the file system, or it was rejected with RootEscapeError; the history operation '
+               'after_loose asks a new constrained object after an unconstrained one on the same folder performed every plain '
+               'operation with the name (quick: corpus + every second targeted spelling + random)')
     ck.trusted.append('hand-written model SM/PathNorm.v of posixpath.join/normpath/abspath/commonpath and of _resolve_path / '
                       'unify_path (tied by exhaustive correspondence on every run); Adler-32 block comparison')
     ck.trusted.append('CPython audit events (open, os.scandir, os.listdir, os.walk) and a wrapper around os.stat/os.lstat as '
                       'the observation of which paths an operation touches')
     ck.trusted.append('translate/c18_ops.py (abstract interpretation of the RawFileSystem / FileSystemChain method bodies into '
-                      'path expressions) and their evaluation SM/PathOps.v peval, tied by the operations correspondence')
+                      'path expressions) and their evaluation SM/PathOps.v peval, tied by the operations correspondence; '
+                      'SM/PathHistory.v hist_run tied by the history correspondence; the wrapper / shared-state censuses of '
+                      'translate/c18_guard.py are syntactic over filesys.py')
     ck.assumptions.append('os.walk contract (hypothesis of c18_walk_found_inside, not checked): every dirpath is the top joined '
                           'with directory-entry names; entry names contain no separator and are not "", ".", ".."')
     ck.assumptions.append('File handles may carry any strings; fs.path / fs.constrain_path are not assigned from outside the class')
@@ -911,9 +1174,11 @@ def run(ck: Ck) -> None:
                           'on normalised absolute paths, symbolic links are outside the quantifier')
     ck.assumptions.append('the working directory is absolute (hypothesis is_abs cwd of the theorems); os.getcwd() always is')
     assert os.sep == '/'
+    searched, ties_before = False, 0
     ok_t = ck.translate('Containment_gen', c18_guard.translate)
     ok_t = ck.translate('FsOps_gen', c18_ops.translate) and ok_t
     side = ck.extra.get('translated', {}).get('Containment_gen', {})
+    RESOLVE_METHOD[0] = side.get('resolve_method', '_resolve_path')
     built = ok_t and ck.build(['Props/C18.vo', 'SM/PathNormEnum.vo'])
     if built:
         ck.theorems('Props/C18.v')
@@ -927,8 +1192,17 @@ def run(ck: Ck) -> None:
             'every_os_call_receives_a_resolve_path_result': 'every_os_call_receives_a_resolve_result',
             'file_handle_consumers_revalidate_the_stored_string': 'handle_consumers_revalidate_stored_string',
             'chain_and_file_classes_touch_no_file_system_themselves': 'chain_and_file_classes_touch_no_file_system',
+            # nothing (decorator / cache / rebinding / attribute hook / subclass override) between a caller and the bodies read
+            'resolve_path_is_called_unwrapped': 'resolve_path_is_not_wrapped',
+            'no_method_of_the_file_system_classes_is_wrapped': 'no_method_of_the_file_system_classes_is_wrapped',
+            # no module / class level table, mutable default or method-object state readable by a second file-system object
+            'file_system_methods_share_no_mutable_state': 'file_system_methods_share_no_mutable_state',
         })
+        for w in side.get('resolve_path_wrappers', []) + ck.extra.get('translated', {}).get('FsOps_gen', {}).get('method_wrappers', []):
+            ck.notes.append('wrapper between callers and a method body: ' + ' / '.join(w))
         ops_side = ck.extra.get('translated', {}).get('FsOps_gen', {})
+        for w in ops_side.get('shared_mutable_state', []):
+            ck.notes.append('state shared between file-system objects: ' + ' / '.join(w))
         for m, c, b, p, _ in ops_side.get('raw_sites', []):
             ck.hist('os_call_site', f'{m}:{c}:{b}:{p}')
         info = ck.coq_eval(IMPORTS, ['handles_store_the_validated_string', 'length (handle_sites raw_sites)'], name='opsinfo')
@@ -943,37 +1217,54 @@ def run(ck: Ck) -> None:
                             'correspondence compares every function on every block (escalated budget)')
             ESCALATE.append(True)
         t = _stage(ck, 'translate+build+obligations', t)
-        corr_exhaustive(ck)
-        t = _stage(ck, 'corr_exhaustive', t)
+        started = corr_exhaustive_start(ck)
+        t = _stage(ck, 'corr_exhaustive_implementation_side', t)
+        # the search on real trees runs in this thread while the coqc processes of the correspondence run
+        ties_before = len(ck.tie_broken)
+        search_trees(ck)
+        searched = True
+        t = _stage(ck, 'search_trees(while coqc runs)', t)
+        corr_exhaustive_finish(ck, started)
+        t = _stage(ck, 'corr_exhaustive_wait', t)
         corr_random(ck)
         t = _stage(ck, 'corr_random', t)
         check_casefold(ck)
         t = _stage(ck, 'casefold', t)
         corr_ops(ck)
         t = _stage(ck, 'corr_ops', t)
-    search_trees(ck)
-    t = _stage(ck, 'search_trees', t)
+    if not searched:
+        search_trees(ck)
+        t = _stage(ck, 'search_trees', t)
+    elif len(ck.tie_broken) > ties_before and not ck.thorough and not ck.violations:
+        # a correspondence disagreed after the search had run with the small budget: search again with the escalated one
+        search_trees(ck)
+        t = _stage(ck, 'search_trees_escalated', t)
     search_unify(ck)
     t = _stage(ck, 'search_unify', t)
     keys = {v['key'] for v in ck.violations}
-    if any(k.startswith(('escape-', 'handle-escape-')) for k in keys):
+    if any(k.startswith(ESCAPE_KEYS) for k in keys):
         ck.explain('instance:guard_is_a_sound_segmentwise_form')
         ck.explain('instance:every_fs_access_goes_through_resolve_path')
         ck.explain('instance:every_os_call_receives_a_resolve_path_result')
         ck.explain('instance:file_handle_consumers_revalidate_the_stored_string')
         ck.explain('instance:chain_and_file_classes_touch_no_file_system_themselves')
+        ck.explain('instance:resolve_path_is_called_unwrapped')
+        ck.explain('instance:no_method_of_the_file_system_classes_is_wrapped')
+        ck.explain('instance:file_system_methods_share_no_mutable_state')
         ck.explain('translate:FsOps_gen')
         ck.explain('instance:root_')
         ck.explain('instance:constrain_flag')
         ck.explain('translate:Containment_gen')
     # A model/implementation disagreement is explained only when every disagreeing function belongs to the part whose
     # concrete violation was exhibited (unify_path by an escaping pack path, _resolve_path by an observed escape).
-    if DISAGREE.get('ops') and any(k.startswith(('escape-', 'handle-escape-')) for k in keys):
+    if DISAGREE.get('ops') and any(k.startswith(ESCAPE_KEYS) for k in keys):
         ck.explain('correspondence:operations_model')
+    if DISAGREE.get('history') and any(k.startswith(ESCAPE_KEYS) for k in keys):
+        ck.explain('correspondence:history_model')
     for stage, ob in (('exhaustive', 'correspondence:paths_exhaustive'), ('random', 'correspondence:paths_random')):
         fs = DISAGREE.get(stage, set())
         if fs and all(f == 'unify_path' and 'unify-path-escapes' in keys
-                      or f.startswith('resolve[') and any(k.startswith(('escape-', 'handle-escape-')) for k in keys) for f in fs):
+                      or f.startswith('resolve[') and any(k.startswith(ESCAPE_KEYS) for k in keys) for f in fs):
             ck.explain(ob)
 
 
@@ -991,8 +1282,10 @@ def replay(data: dict) -> int:
             print('data returned :', out['data'])
             print('accesses      :', [(k, p.replace(base, '{BASE}')) for k, p in out['events']])
             print('outside root  :', [(k, p.replace(base, '{BASE}')) for k, p in out['escapes']])
-            print('VIOLATION reproduced' if out['escapes'] or out['leaked'] else 'no escape on this tree')
-            return 1 if out['escapes'] or out['leaked'] else 0
+            print('answered about:', [(a, p.replace(base, '{BASE}')) for a, p in out['answered_outside']])
+            bad = bool(out['escapes'] or out['leaked'] or out['answered_outside'])
+            print('VIOLATION reproduced' if bad else 'no escape on this tree')
+            return 1 if bad else 0
         finally:
             shutil.rmtree(base_dir, ignore_errors=True)
     if 'path' in r and 'result' in r:
